@@ -304,6 +304,11 @@ func (e mwEngine) Gen(t *rapid.T, tier string) any {
 			d.Ev = rapid.IntRange(0, nev-1).Draw(t, "dev")
 			cl.Down = append(cl.Down, d)
 		}
+		if e.prop == "C19" && rapid.IntRange(0, 5).Draw(t, "crash") == 0 {
+			// the session ends because the wrapped handler panics on this message
+			pe := simrt.EvSpec{Author: 0, Kind: 1, CreatedAt: now, Content: mwPanicContent}
+			cl.Script = append(cl.Script, simrt.Op{Kind: "send", Msg: &simrt.Msg{T: "EVENT", Ev: &pe}})
+		}
 		c.Clients = append(c.Clients, cl)
 	}
 	if len(c.Clients) >= 2 && rapid.IntRange(0, 3).Draw(t, "late") == 0 {
@@ -575,6 +580,7 @@ type mwSession struct {
 	emits []*mwDownRec
 	byMsg map[mocrelay.ServerMsg]*mwDownRec
 	ended bool
+	crashed bool // the downstream handler panicked: the session was torn down with messages in flight
 }
 
 type mwCtxKey struct{}
@@ -636,8 +642,33 @@ func (d *mwDownstream) ServeNostr(ctx context.Context, send chan<- mocrelay.Serv
 				return mocrelay.ErrRecvClosed
 			}
 			s.recvd = append(s.recvd, mwRecv{m, d.sim.Stamp(), time.Now()})
+			if ev, ok := m.(*mocrelay.ClientEventMsg); ok && ev.Event.Content == mwPanicContent {
+				// the wrapped handler crashes; whoever serves the connection recovers
+				// (as net/http does per connection)
+				d.sim.Res.Stats.Fault("handler-panic")
+				s.crashed = true
+				panic("verif: downstream handler crashed")
+			}
 		}
 	}
+}
+
+const mwPanicContent = "panic!"
+
+// mwRecover stands for the server code above the handler chain that recovers a
+// panic of a connection's goroutine.
+type mwRecover struct{ h mocrelay.Handler }
+
+func (r mwRecover) ServeNostr(ctx context.Context, send chan<- mocrelay.ServerMsg, recv <-chan mocrelay.ClientMsg) (err error) {
+	defer func() {
+		if p := recover(); p != nil {
+			if s, ok := p.(string); !ok || !strings.HasPrefix(s, "verif: downstream handler crashed") {
+				panic(p)
+			}
+			err = fmt.Errorf("recovered: %v", p)
+		}
+	}()
+	return r.h.ServeNostr(ctx, send, recv)
 }
 
 // ---------------------------------------------------------------- executor
@@ -689,6 +720,7 @@ func (e mwEngine) Exec(t *testing.T, cc any) *simrt.Result {
 				h = buildMw(&c.Stack[i], reg)(h)
 			}
 		}
+		h = mwRecover{h}
 		var cls []*simrt.Client
 		for i, cl := range c.Clients {
 			ctx := context.WithValue(context.Background(), mwCtxKey{}, i)
@@ -831,7 +863,7 @@ func mwJudge(sim *simrt.Sim, c *MwCase, cls []*simrt.Client, down *mwDownstream,
 					sim.Violate("C18", "duplicate-delivered", nil, "%s: %s delivered although the same event id is among the last %d distinct ids delivered on this connection", k.Name, simrt.DescribeServer(r.msg), stack[0].N)
 				}
 			case v == vPass:
-				if k.CancelStamp == 0 && k.CloseStamp == 0 {
+				if k.CancelStamp == 0 && k.CloseStamp == 0 && !sess.crashed {
 					sim.Violate(prop, "server-msg-lost", map[string]string{"type": r.msg.ServerMsgLabel()}, "%s: downstream emitted %s, it never reached the client (all readers drained)", k.Name, simrt.DescribeServer(r.msg))
 				}
 			default:
@@ -910,7 +942,7 @@ func mwJudge(sim *simrt.Sim, c *MwCase, cls []*simrt.Client, down *mwDownstream,
 					sim.Violate(prop, "wrongly-rejected", map[string]string{"type": s.Msg.ClientMsgLabel()}, "%s respects every limit of %s but was answered with %s and not forwarded", desc, stackDesc(stack), simrt.DescribeServer(rej.Msg))
 				}
 			default:
-				if k.CancelStamp == 0 && k.CloseStamp == 0 {
+				if k.CancelStamp == 0 && k.CloseStamp == 0 && !sess.crashed {
 					sim.Violate(prop, "client-msg-vanished", map[string]string{"type": s.Msg.ClientMsgLabel()}, "%s was neither forwarded nor answered with the rejection for its type", desc)
 				}
 			}
@@ -1227,8 +1259,8 @@ func mwCheckMetrics(sim *simrt.Sim, c *MwCase, cls []*simrt.Client, down *mwDown
 	// counters: quiescent, so everything that entered the middleware was counted.
 	// Messages of sessions that are being torn down may be counted or not.
 	tearing := false
-	for _, k := range cls {
-		if k.CancelStamp != 0 || k.CloseStamp != 0 || k.Ctx.Err() != nil {
+	for ci, k := range cls {
+		if k.CancelStamp != 0 || k.CloseStamp != 0 || k.Ctx.Err() != nil || down.sess[ci].crashed {
 			tearing = true
 		}
 	}
